@@ -867,6 +867,33 @@ func c18Scenarios(c *Cases, mon *[]MonitorFailure, cnt *c18Counters) {
 		r.step(nil, nil, &BlockOpts{Evidence: []int{1}})
 		r.idle(2)
 	})
+	// two validators switched off inside the grace period (no jail) come back in the SAME validator-set update;
+	// afterwards each one's misses must be counted for itself: one misses 13 while the other signs (and is
+	// processed later in the vote list), then the other way round with 12 allowed misses plus a single miss
+	for _, first := range []int{0, 1} {
+		first := first
+		run(fmt.Sprintf("co-joined-validators-%d", first), 4, nil, func(r *c18Run) {
+			a, b := first, 1-first
+			r.idle(3)
+			r.absentRun(a, c18Repeat(true, 13), map[int]bool{b: true})
+			r.idle(1)
+			r.setOn(0)
+			r.setOn(1)
+			r.idle(13)
+			if c18Listed(&r.prev, r.nd.Vals[0].Pub) == nil || c18Listed(&r.prev, r.nd.Vals[1].Pub) == nil {
+				r.fail("c18-scenario-setup", "scenario: the two validators did not come back into the set together")
+				return
+			}
+			r.until(c18GraceTo + 3)
+			r.absentRun(b, c18Repeat(true, 12), nil) // tolerated
+			r.absentRun(a, c18Repeat(true, 1), nil)  // a single miss of the other one: nobody is punished
+			r.idle(30)
+			if at := r.absentRun(a, c18Repeat(true, 13), nil); at == 0 {
+				r.fail("c18-absent-not-punished", "scenario: 13 consecutive misses outside grace did not drop the validator (the other one, which joined the set in the same update, signed)")
+			}
+			r.idle(3)
+		})
+	}
 	// evidence in the block in which the validator is switched off for absence: already offline
 	run("evidence-after-switch-off-in-same-block", 4, delegs, func(r *c18Run) {
 		r.until(c18GraceTo + 3)
@@ -991,9 +1018,19 @@ func c18Random(r *c18Run, rg *Rng, nv int) string {
 	case 0: // switched off inside grace: no jail; back on at once
 		kind += "grace-off,"
 		r.idle(rg.Intn(60))
-		if at := r.absentRun(absV, c18Pattern(rg), nil); at != 0 && c18IsGrace(at) {
+		var also map[int]bool
+		other := (absV + 1) % (nv - 1)
+		if other != absV && rg.Intn(2) == 0 { // a second validator goes off with it: both come back in the same update
+			kind += "pair,"
+			also = map[int]bool{other: true}
+		}
+		if at := r.absentRun(absV, c18Pattern(rg), also); at != 0 && c18IsGrace(at) {
 			r.idle(rg.Intn(3))
 			r.setOn(absV)
+			if also != nil {
+				r.idle(2)
+				r.setOn(other)
+			}
 		}
 	case 1: // the 13th consecutive miss lands on the last grace block or the first block after it
 		kind += "grace-edge,"
